@@ -19,6 +19,21 @@ NOTE = ('Trusted: CrossHair byte-code interpreter and its str/int/list/dict/re m
 
 # id -> (level text, design ref)
 CLAIMED = {
+    'C07': ('ParseSource bookkeeping, line syntax, act un-escaping and the document parser on fully SYMBOLIC texts (<= 3-5 characters) '
+            'against position-based reference readers; the real test-case parser (processors._Parser around test_case_parser.new_parser) '
+            'on documents over 25 line kinds, every permutation of phase blocks, inclusion graphs incl. cycles and missing files, with '
+            'source locations and inclusion chains; one instruction element with description / comments on symbolic text; header-delimited '
+            'blocks with the real instruction set. One known finding (header swallowed by an instruction) excluded by region.', '4/C07'),
+    'C17': ('Suite/case contents merging on labelled documents for every subset of phases; leakage between cases on one real executor '
+            '(17 kinds of mutation by a misbehaving instruction, symbolic timeouts, fault kinds); the three ways of running a case (suite, '
+            '--suite, beside exactly.suite) through the real MainProgram with an absolute oracle on started processes; histories of 2-3 '
+            'real cases in one suite run vs each alone; suite-supplied instructions referring to case-defined symbols (36 forms). '
+            'Selector-level for the program-level kernels.', '4/C17'),
+    'C18': ('Classification kernels: python_evaluate with eval stubbed to return a symbolic n / a non-integer / raise any of 64 exception '
+            'classes or SystemExit, through the real integer parser and 14 instruction sites; the instruction-dictionary parser on symbolic '
+            'source with a stub parser; regex validator with re.compile raising anything; the real replace transformer on a catalogue of bad '
+            'templates; the last-resort nets of executor and processor; the real MainProgram on 331 (quick) / 6111 (thorough) mutants of a '
+            'grammar of 106 valid instructions and on document-level catalogues. One known finding (NUL character in a file name).', '4/C18'),
     'C08': ('Def/reference programs generated from selectors as test-case text, parsed by the real instruction parsers and default actor '
             'and validated by the real parse_atc_and_validate_symbols / validate_symbol_usages with the builtins predefined: accept iff an '
             'independent def/reference interpreter accepts (order, duplicates, builtins, 13 value types x 31 definition forms x 22 '
